@@ -73,6 +73,28 @@ def check_i2(chk, m, K):
         send = [k for k, e in cs if e.callee == "messageq_send" and e.args[1] == ("arg", 1)]
         wake = [(k, e) for k, e in cs if e.callee == "fibre_run_atomic"]
         ok = bool(send) and bool(wake) and send[0] < wake[0][0] and strip_casts(p.ret) == wake[0][1].res
+        if not wake:
+            # the wake-up written out: a slot of the atomic run queue is claimed; NULL -> false is returned, otherwise the owning
+            # fibre is stored in the slot, the slot is sent and true is returned
+            claim = [(k, e) for k, e in cs if e.callee == "messageq_claim" and K.queue_arg(e.args[0]) == "atomic_runq"]
+            if claim:
+                kc, ce = claim[0]
+                got = None
+                for c, taken, inst in p.conds:
+                    cc = strip_casts(c)
+                    if cc[0] == "icmp" and cc[1] in ("eq", "ne") and ("null",) in (cc[2], cc[3]) and \
+                            strip_casts(cc[2] if cc[3] == ("null",) else cc[3]) == strip_casts(ce.res):
+                        got = (cc[1] == "ne") == bool(taken)
+                rv = strip_casts(p.ret) if p.ret is not None else None
+                wsend = [k for k, e in cs if e.callee == "messageq_send" and K.queue_arg(e.args[0]) == "atomic_runq" and e.args[1] == ce.res]
+                st = [k for k, e in enumerate(p.events) if e.kind == "store" and e.ptr == ce.res and ptr_parts(e.val)[0] == ("arg", 0)]
+                if got is False:
+                    ok = bool(send) and send[0] < kc and not wsend and rv is not None and rv[0] == "c" and rv[2] == 0
+                    wake = [(kc, ce)]
+                elif got is True:
+                    ok = bool(send) and send[0] < kc and bool(wsend) and bool(st) and st[0] < wsend[0] and \
+                        rv is not None and rv[0] == "c" and rv[2] != 0
+                    wake = [(kc, ce)]
         chk.ob("I2.event-then-wake", pid, ok,
                "every send publishes the event and then wakes the owning fibre, returning that wake-up's result%s" %
                ("" if ok else " (sent: %s, woken: %s): an event published without a wake-up is never received if the earlier "
